@@ -148,9 +148,9 @@ CHECKS = {
             {'fn': P + 'rpc/backend.H_C14_2_ReceiptView', 'over': {'max-paths': 100000}, 'must_reach': ['views-compared', 'synthetic-receipt-of-discarded-tx', 'synthetic-receipt-after-earlier-eth-tx-and-non-eth-tx']},
         ],
         'level_text': 'Bounded exhaustive symbolic execution of the real indexer kernel (KVIndexer.IndexBlock, GetByTxHash, GetByBlockAndIndex, LastIndexedBlock, TxHashKey/TxIndexKey, rpctypes.ParseTxResult, TxWasDroppedPreAnteHandleDueToBlockGasExcess, IsEthereumTx) over a block of 1-3 transactions of 6 kinds with the events the application emits, optionally followed by a later block: every Ethereum transaction that reached the ante handler is found by hash and by (height, index), both lookups agree, indices follow block order over exactly those transactions, block position and failed flag are right, nothing else is indexed, unknown hash / out-of-range index are errors, re-indexing a block (also after a later one) leaves the database byte-for-byte unchanged.',
-        'level_note': 'H_C14_2 runs the real rpc/backend code (GetTransactionReceipt, GetTransactionByHash, GetTransactionByBlockNumberAndIndex, TxReceiptFromEvent/ParseTxReceiptFromEvent, EthMsgsFromCometBFTBlock, NewRPCReceiptFromReceipt, NewRPCTransaction) over the real indexer with a stub CometBFT client serving the symbolic block and its results (tx_receipt events built by the real GetSdkEventForReceipt) and compares every reported field with the consensus figures (symbolic gas limits / gas used; cumulative gas = running sum over Ethereum txs that reached the ante handler). H_C14_3 runs the real EVMIndexerService (Start -> OnStart with its header goroutine and catch-up loop, under the engine\'s scheduler with delay bound 0: the deterministic round-robin schedule; time.Sleep polling wakes on synchronisation changes, time-outs never fire) over the real KVIndexer against a stub chain: a service killed after indexing k of 3 blocks and restarted on the same database when the chain is 3 blocks further is compared with an uninterrupted one. Known finding C14-F16 (open): with an empty index at restart the blocks produced meanwhile are skipped. Block and log-filter views (blocks.go, filters.go) and the indexer service with its goroutines, timers and crash/restart schedules are outside the engine (no concurrency, no I/O); convergence after a crash rests on the two facts shown here: a block is written in one atomic batch and indexing is idempotent.',
+        'level_note': 'H_C14_2 runs the real rpc/backend code (GetTransactionReceipt, GetTransactionByHash, GetTransactionByBlockNumberAndIndex, GetBlockTransactionCountByNumber, GetLogsByHeight / GetLogsFromBlockResults / AllTxLogsFromEvents, TxReceiptFromEvent/ParseTxReceiptFromEvent, EthMsgsFromCometBFTBlock, NewRPCReceiptFromReceipt, NewRPCTransaction) over the real indexer with a stub CometBFT client serving the symbolic block and its results (tx_receipt events built by the real GetSdkEventForReceipt) and compares every reported field with the consensus figures (symbolic gas limits / gas used; cumulative gas = running sum over Ethereum txs that reached the ante handler). H_C14_3 runs the real EVMIndexerService (Start -> OnStart with its header goroutine and catch-up loop, under the engine\'s scheduler with delay bound 0: the deterministic round-robin schedule; time.Sleep polling wakes on synchronisation changes, time-outs never fire) over the real KVIndexer against a stub chain: a service killed after indexing k of 3 blocks and restarted on the same database when the chain is 3 blocks further is compared with an uninterrupted one. Known finding C14-F16 (open): with an empty index at restart the blocks produced meanwhile are skipped. Block and log-filter views (blocks.go, filters.go) and the indexer service with its goroutines, timers and crash/restart schedules are outside the engine (no concurrency, no I/O); convergence after a crash rests on the two facts shown here: a block is written in one atomic batch and indexing is idempotent.',
         'bounds': ['1-3 transactions per block, 6 kinds each; 2 blocks', 'H_C14_3: 3 blocks of 1 transaction of 6 kinds each, crash after 0-2 blocks, restart at chain height +3', 'H_C14_2: 1 block of 1-3 transactions of 6 kinds, gas limit in [21000, 2^32), gas used in [21000, gas limit], 0-2 logs per successful tx, legacy txs', 'database: finite ordered map with atomic batch (native replay: cosmos-db MemDB)'],
-        'outside': ['rpc/backend block / header / log-filter views, block hash derivation from the CometBFT header', 'indexer service: other schedules than the round-robin one, RPC failures of the node (failure tracker), pruned nodes', 'real protobuf transaction decoding (registry of decoded transactions)'],
+        'outside': ['rpc/backend block / header views (RPCBlockFromCometBFTBlock), log filtering by criteria, block hash derivation from the CometBFT header', 'indexer service: other schedules than the round-robin one, RPC failures of the node (failure tracker), pruned nodes', 'real protobuf transaction decoding (registry of decoded transactions)'],
         'assumptions': COMMON_ASSUMPTIONS + ['TxDecoder returns the registered sdk.Tx for registered bytes and an error otherwise; tx.Hash() returns the registered hash (native replay: really signed transactions)'],
     },
     'C15': {
